@@ -35,6 +35,18 @@ def write_all(d, fmt, tmp):
     p = os.path.join(tmp, "out-é." + fmt)
     d.serialize(p, format=fmt)
     out["file-path"] = open(p, "rb").read().decode("utf-8")
+    # text streams that are a text layer over a file, in an encoding other than UTF-8: what is read back through
+    # the same text layer must be the same text (latin-1 only where the text can be encoded in it at all)
+    for enc in ("utf-16", "latin-1"):
+        try:
+            out["returned-string"].encode(enc)
+        except UnicodeEncodeError:
+            continue
+        q = os.path.join(tmp, "text-%s.%s" % (enc, fmt))
+        with open(q, "w", encoding=enc, newline="") as f:
+            d.serialize(f, format=fmt)
+        with open(q, "r", encoding=enc, newline="") as f:
+            out["text-file:" + enc] = f.read()
     return out, p
 
 
@@ -44,6 +56,10 @@ def sources(text, path):
     yield "text-stream", lambda: dict(source=io.StringIO(text))
     yield "binary-stream", lambda: dict(source=io.BytesIO(text.encode("utf-8")))
     yield "path", lambda: dict(source=path)
+    q = path + ".utf16"
+    with open(q, "w", encoding="utf-16", newline="") as f:
+        f.write(text)
+    yield "text-file:utf-16", lambda: dict(source=open(q, "r", encoding="utf-16", newline=""))
 
 
 def same_xml(a, b):
@@ -145,7 +161,7 @@ def main():
             print("still failing:", f["what"])
         return 1 if bad else 0
     res = {"evaluations": n, "distinct": n, "samples": ["doc#0/json", "doc#0/rdf"],
-           "rule": "%d generated documents (C07-expressible features, plus a non-ASCII label) x 4 formats; per case 4 destination kinds, 5 source kinds, with/without explicit format" % count,
+           "rule": "%d generated documents (C07-expressible features, plus a non-ASCII label) x 4 formats; per case 4 destination kinds + text files in utf-16 / latin-1, 5 source kinds + a utf-16 text file, with/without explicit format" % count,
            "failures_found": len(failures), "failures": list(failures.values())}
     if a.out:
         json.dump(res, open(a.out, "w"), indent=1)
